@@ -95,7 +95,7 @@ func c16Validate(s c16Schema, v any) bool {
 	return true
 }
 
-// c16Defaults returns a copy of obj with top-level property defaults applied (non-required, missing keys).
+// c16Defaults returns a copy of obj with property defaults applied (non-required, missing keys), recursively into present nested objects.
 func c16Defaults(s c16Schema, obj map[string]any) map[string]any {
 	out := map[string]any{}
 	for k, v := range obj {
@@ -114,8 +114,31 @@ func c16Defaults(s c16Schema, obj map[string]any) map[string]any {
 				out[k] = d
 			}
 		}
+		// defaults of a nested object's properties are applied to the nested object; an absent
+		// (optional) nested object whose properties carry defaults is materialised to hold them
+		if sub, ok := ps.(c16Schema); ok && sub["type"] == "object" {
+			if inner, ok := out[k].(map[string]any); ok {
+				out[k] = c16Defaults(sub, inner)
+			} else if _, present := out[k]; !present && !required[k] && c16HasDefaults(sub) {
+				out[k] = c16Defaults(sub, map[string]any{})
+			}
+		}
 	}
 	return out
+}
+
+func c16HasDefaults(s c16Schema) bool {
+	props, _ := s["properties"].(c16Schema)
+	for _, ps := range props {
+		sub := ps.(c16Schema)
+		if _, ok := sub["default"]; ok {
+			return true
+		}
+		if c16HasDefaults(sub) {
+			return true
+		}
+	}
+	return false
 }
 
 // ---- the typed input: pointers + omitempty, so re-marshalling the received value shows exactly what the handler saw
@@ -157,6 +180,8 @@ func c16InputSchemas() []c16InputSchema {
 		{"s-enum-optional", obj(c16Schema{"s": c16Schema{"type": "string", "enum": []any{"x", "y"}}}, nil, nil)},
 		{"s-enum-default", obj(c16Schema{"s": c16Schema{"type": "string", "enum": []any{"x", "y"}, "default": "y"}, "a": intAB}, nil, nil)},
 		{"nested-required", obj(c16Schema{"n": c16Schema{"type": "object", "properties": c16Schema{"x": c16Schema{"type": "integer", "minimum": c16Num(1)}}, "required": []any{"x"}}}, []any{"n"}, nil)},
+		{"nested-default-x", obj(c16Schema{"n": c16Schema{"type": "object", "properties": c16Schema{"x": c16Schema{"type": "integer", "minimum": c16Num(1), "default": c16Num(4)}}}}, nil, nil)},
+		{"nested-default-x+top-default-a", obj(c16Schema{"n": c16Schema{"type": "object", "properties": c16Schema{"x": c16Schema{"type": "integer", "minimum": c16Num(1), "default": c16Num(4)}}}, "a": c16Schema{"type": "integer", "default": c16Num(2)}}, nil, nil)},
 		{"array-of-positive", obj(c16Schema{"l": c16Schema{"type": "array", "items": c16Schema{"type": "integer", "minimum": c16Num(1)}}}, nil, nil)},
 		{"closed-a-b", obj(c16Schema{"a": intAB, "b": c16Schema{"type": "boolean"}}, []any{"b"}, c16Schema{"additionalProperties": false})},
 		{"open-a-s", obj(c16Schema{"a": intAB, "s": c16Schema{"type": "string", "enum": []any{"x", "y"}}}, nil, c16Schema{"additionalProperties": true})},
@@ -268,6 +293,21 @@ func c16AddOutputTools(s *Server, plan map[string]*c16OutCase) {
 		}
 		return content(c), nil, nil
 	})
+	nestedOut := c16Schema{"type": "object", "properties": c16Schema{
+		"o": c16Schema{"type": "object", "properties": c16Schema{"d": c16Schema{"type": "string", "enum": []any{"dflt", "set"}, "default": "dflt"}}},
+	}}
+	AddTool(s, &Tool{Name: "out-nested-default", OutputSchema: nestedOut}, func(ctx context.Context, r *CallToolRequest, in map[string]any) (*CallToolResult, map[string]any, error) {
+		c := pick("out-nested-default")
+		switch c.ret {
+		case "inner-empty":
+			return content(c), map[string]any{"o": map[string]any{}}, nil
+		case "inner-set":
+			return content(c), map[string]any{"o": map[string]any{"d": "set"}}, nil
+		case "inner-bad":
+			return content(c), map[string]any{"o": map[string]any{"d": "other"}}, nil
+		}
+		return content(c), map[string]any{}, nil
+	})
 	AddTool(s, &Tool{Name: "out-any"}, func(ctx context.Context, r *CallToolRequest, in map[string]any) (*CallToolResult, any, error) {
 		c := pick("out-any")
 		if c.ret == "nil" {
@@ -292,6 +332,7 @@ func c16OutCases() []*c16OutCase {
 	add("out-slice", "empty", "two")
 	add("out-int", "42")
 	add("out-explicit", "valid", "valid-with-d", "too-big", "wrong-type", "missing-required")
+	add("out-nested-default", "inner-empty", "inner-set", "inner-bad", "outer-empty")
 	add("out-any", "nil", "obj")
 	return out
 }
@@ -327,6 +368,16 @@ func c16ExpectedOutput(c *c16OutCase) string {
 			return `{"d":"dflt","n":3}`
 		case "valid-with-d":
 			return `{"d":"set","n":3}`
+		}
+		return "ERR"
+	case "out-nested-default":
+		switch c.ret {
+		case "inner-empty":
+			return `{"o":{"d":"dflt"}}`
+		case "inner-set":
+			return `{"o":{"d":"set"}}`
+		case "outer-empty":
+			return `{"o":{"d":"dflt"}}`
 		}
 		return "ERR"
 	case "out-any":
